@@ -31,6 +31,19 @@ s=s.replace(a,'''		mgr.inheritTagUncertainty()
 		log.Printf("converter job delivered")
 	}
 }''',1)
+# saveState: a log line between Close and Remove, the error of Close in a local (the order of the file operations,
+# which tools/checks/c12.py reads from the source, stays create, write, close, remove)
+a='''	if err := f.Close(); err != nil {
+		return err
+	}
+	if mgr.stateFilename != "" {'''
+assert a in s
+s=s.replace(a,'''	closeErr := f.Close()
+	if closeErr != nil {
+		return closeErr
+	}
+	log.Printf("state saved to %q", fn)
+	if mgr.stateFilename != "" {''',1)
 open(p,'w').write(s)
 p='internal/tools/bitmask/longBitmask.go'
 s=open(p).read()
